@@ -71,6 +71,7 @@ LAW_KEYS += ["box-majorAxis", "box-intersects-point:random", "clip:not-nearest",
              "affineTransform:differs-from-transform", "transform:image-of-box-point-outside",
              "transform-outparam:empty-input-leaves-result", "transform-outparam:infinite-input-leaves-result",
              "transform-outparam:affine-differs", "transform-outparam:projective-extends-old-result",
+             "transform-overloads-differ:projective-with-w=0-corner",
              "affineTransform-outparam:empty-input", "affineTransform-outparam:infinite-input", "affineTransform-outparam:differs",
              "transform:overloads-differ-bitwise:affine-random", "transform:affine-residue"]
 WHAT = {
